@@ -209,7 +209,7 @@ def run(chk):
         chk.proof_breaks.append("harness does not build against /repo: " + out[-800:])
         return chk.finish()
     rng = common.Rng(chk.seed, PID)
-    n_cases = 150 if chk.tier == "quick" else 1500
+    n_cases = 150 if chk.tier == "quick" else 8000
     stats = {"runtime_cases": 0, "syntax_cases": 0, "frames_checked": 0, "positions_vs_coq": 0, "depths": {}, "kinds": {}, "faults": {}}
 
     cases = []
